@@ -154,6 +154,13 @@ pub fn run(ctx: &mut Ctx) {
             }
         }
     }
+    // shapes the grammar reaches rarely: redeclared variables and redefined words seen through words compiled
+    // earlier, a `local` re-executed by a loop, shadowed locals
+    for _ in 0..(ctx.n / 8).max(40) {
+        let src = crate::progen::shape(&mut ctx.rng);
+        ctx.tag("shape:redeclare/relocal");
+        emit_program(ctx, &base, &src);
+    }
     // oracle 2: zero-trip counted loops leave the stack as `drop drop` does; the body never runs
     for _ in 0..(ctx.n / 4).max(50) {
         let start = ctx.rng.range(-3, 6);
